@@ -23,6 +23,12 @@ sys.path.insert(0, HERE)
 # obligations that did not finish inside the thorough limits (3600 s / 28 GB) in the validation sweeps:
 # kept in the generator, run only with --only, claimed nowhere
 NOT_FINISHING = {
+    # (the remaining three-use obligations on [2,2] partners need 20-28 GB: marginal, out of memory in one of two sweeps)
+    "c03_shape_1x1_2x2_u3_p1",
+    "c03_shape_2_2x2_u3_p1",
+    "c03_shape_2_2x2_u3_p2",
+    "c03_shape_2x1_2x2_u3_p2",
+    "c03_shape_2x2_2x2_u3_p1",
     # C03: three uses, or two uses with two passes, of a broadcast operand ran out of memory (28 GB) even on [2,2]
     # partners; the [2,3] / rank-3 / rank-4 multi-use variants were not reached by the validation sweep before the
     # end of the session (their single-use forms are in the quick core)
